@@ -182,6 +182,48 @@ theorem complete_edges_rev (vs : List (Pt2 ℝ)) (hn : 2 ≤ vs.length)
       MeshLemmas.ringF vs.length 0) :=
   MeshLemmas.cap_backward vs hn hc
 
+/-- reversing the list reverses the orientation -/
+theorem convex_reverse (ccw : Bool) (vs : List (Pt2 ℝ)) (h : ConvexPos ccw vs) : ConvexPos (!ccw) vs.reverse := by
+  intro i j k hij hjk hk
+  have hk' : k < vs.length := by simpa using hk
+  have g : ∀ m, m < vs.length → vs.reverse.getD m d0 = vs.getD (vs.length - 1 - m) d0 := by
+    intro m hm
+    simp only [List.getD_eq_getElem?_getD]
+    rw [List.getElem?_reverse hm]
+  rw [g i (by omega), g j (by omega), g k hk']
+  have := h (vs.length - 1 - k) (vs.length - 1 - j) (vs.length - 1 - i) (by omega) (by omega) (by omega)
+  have e : Tri.cross3 (vs.getD (vs.length - 1 - i) d0) (vs.getD (vs.length - 1 - j) d0) (vs.getD (vs.length - 1 - k) d0) =
+      -Tri.cross3 (vs.getD (vs.length - 1 - k) d0) (vs.getD (vs.length - 1 - j) d0) (vs.getD (vs.length - 1 - i) d0) := by
+    simp only [Tri.cross3]; ring
+  rw [e]
+  cases ccw <;> simp only [Oriented, Bool.not_false, Bool.not_true, Bool.false_eq_true, if_false, if_true] at this ⊢ <;>
+    linarith
+
+theorem pts_indexed (vs : List (Pt2 ℝ)) : pts (indexed vs) = vs := by
+  unfold pts indexed
+  rw [List.map_snd_zip]; simp
+theorem pts_indexed_reverse (vs : List (Pt2 ℝ)) : pts (indexed vs).reverse = vs.reverse := by
+  have h := pts_indexed vs
+  unfold pts at h ⊢
+  rw [List.map_reverse, h]
+
+/-- **C03 on convex polygons — total.** For every strictly convex polygon of at least four vertices,
+listed in either direction, both entry points return exactly n-2 triangles (so, with the theorems
+above, valid indices, the polygon's own orientation, areas summing to the polygon's area and the edge
+certificate all hold). -/
+theorem convex_complete (ccw : Bool) (vs : List (Pt2 ℝ)) (hn : 3 < vs.length) (hc : ConvexPos ccw vs) :
+    (∃ out, triangulate2d vs = some out ∧ out.length = 3 * (vs.length - 2)) ∧
+    (∃ out, triangulate2dRev vs = some out ∧ out.length = 3 * (vs.length - 2)) := by
+  have hl : (indexed vs).length = vs.length := by simp [indexed]
+  constructor
+  · refine ⟨triangulate (indexed vs), by simp [triangulate2d, hn], ?_⟩
+    have := triangulate_convex_complete ccw (indexed vs) (by omega) (by rw [pts_indexed]; exact hc)
+    rwa [hl] at this
+  · refine ⟨triangulate (indexed vs).reverse, by simp [triangulate2dRev, hn], ?_⟩
+    have := triangulate_convex_complete (!ccw) (indexed vs).reverse (by simp; omega)
+      (by rw [pts_indexed_reverse]; exact convex_reverse ccw vs hc)
+    simpa [hl] using this
+
 /-- the public entry points: `triangulate2d` on the list, `triangulate2d_rev` on the reversed list,
 both rejecting fewer than four vertices (the `assert!`) -/
 theorem triangulate2d_spec (vs : List (Pt2 ℝ)) :
